@@ -187,7 +187,12 @@ def h_session(ctx, n=3, kind='T1', side='long', exch='futures', cancel=True):
     else:
         raise ValueError(kind)
     cfg = S.config_dict(exchange_type=exch, leverage=2, fee=0.001, balance=10000.0)
-    rec = S.run_session(S.make_candles(rows), T, cfg)
+    from jesse import exceptions as jex
+    rec = S.run_session(S.make_candles(rows), T, cfg, catch=(jex.InsufficientBalance,) if exch == 'spot' else ())
+    if rec.exc is not None:
+        # spot: a modified exit routed as a second resting STOP/LIMIT sell exceeds the base balance and is rejected by the exchange
+        ctx.event('spot-session-ended-by-insufficient-balance')
+        return
     # the market order that closes an open position at session end is not a declared order
     for od in rec.orders:
         info = rec.order_info[id(od)]
